@@ -360,6 +360,56 @@ func (m *c16) ops() []*c16Op {
 			return nil
 		}})
 
+	// key objects whose scalar is not reduced (CreateKey accepts any byte string: all-ones, N, N+1, 2N+5): signing, blinded
+	// signing, blinding and unblinding leave the caller's key and blind-key objects exactly as they were
+	add(&c16Op{name: "ecdsa key objects with D >= N", group: "ecdsa", names: []string{"digest"},
+		inputs: func(r *core.Rand) [][]byte { return [][]byte{r.Bytes(32)} },
+		call: func(a [][]byte) []byte {
+			for _, cv := range []elliptic.Curve{elliptic.P224(), elliptic.P256(), elliptic.P384(), elliptic.P521()} {
+				N := cv.Params().N
+				w := (N.BitLen() + 7) / 8
+				for _, db := range [][]byte{bytes.Repeat([]byte{0xff}, w), N.Bytes(), new(big.Int).Add(N, big.NewInt(1)).Bytes(), new(big.Int).Add(new(big.Int).Lsh(N, 1), big.NewInt(5)).Bytes(), bytes.Repeat([]byte{0xff}, w+3)} {
+					k, err := ecdsa.CreateKey(cv, db)
+					must(err)
+					bk, err := ecdsa.CreateKey(cv, db)
+					must(err)
+					snap := func(p *ecdsa.PrivateKey) [3]*big.Int {
+						return [3]*big.Int{new(big.Int).Set(p.D), new(big.Int).Set(p.X), new(big.Int).Set(p.Y)}
+					}
+					same := func(p *ecdsa.PrivateKey, q [3]*big.Int) bool {
+						return p.D.Cmp(q[0]) == 0 && p.X.Cmp(q[1]) == 0 && p.Y.Cmp(q[2]) == 0
+					}
+					k0, b0 := snap(k), snap(bk)
+					if new(big.Int).Mod(k.D, N).Sign() != 0 {
+						if _, _, err := ecdsa.Sign(setupReader(), k, a[0]); err != nil {
+							panic("Sign failed: " + err.Error())
+						}
+						if !same(k, k0) {
+							panic("ecdsa.Sign changed the caller's key object (D >= N)")
+						}
+						if _, err := ecdsa.SignASN1(setupReader(), k, a[0]); err != nil || !same(k, k0) {
+							panic("ecdsa.SignASN1 changed the caller's key object (D >= N)")
+						}
+					}
+					pk := &ecdsa.PublicKey{Curve: cv, X: new(big.Int).Set(cv.Params().Gx), Y: new(big.Int).Set(cv.Params().Gy)}
+					if bp, err := ecdsa.BlindPublicKeyWithContext(cv, pk, bk, []byte("ctx")); err == nil {
+						ecdsa.UnblindPublicKeyWithContext(cv, bp, bk, []byte("ctx"))
+					}
+					if !same(bk, b0) || pk.X.Cmp(cv.Params().Gx) != 0 || pk.Y.Cmp(cv.Params().Gy) != 0 {
+						panic("Blind/UnblindPublicKeyWithContext changed the caller's blind-key or public-key object")
+					}
+					sk, err := ecdsa.GenerateKey(cv, setupReader())
+					must(err)
+					s0 := snap(sk)
+					ecdsa.BlindKeySignWithContext(setupReader(), sk, bk, a[0], []byte("ctx"))
+					if !same(bk, b0) || !same(sk, s0) {
+						panic("BlindKeySignWithContext changed the caller's key or blind-key object (blind key >= N)")
+					}
+				}
+			}
+			return nil
+		}})
+
 	// ---- quicwire
 	add(&c16Op{name: "quicwire.AppendVarintBytes", group: "codec", names: []string{"destination", "value"}, destPrefix: true,
 		inputs: func(r *core.Rand) [][]byte { return [][]byte{r.Bytes(r.IntN(6)), r.Bytes(r.Of(0, 5, 70, 300))} },
